@@ -36,10 +36,11 @@ func init() {
 			}
 			return 240
 		},
-		Run:         c17Run,
-		RaceOnly:    true,
+		Run:        c17Run,
+		RaceOnly:   true,
+		ChildProbe: "gcprobe", ChildProbeSignature: GCFindingSignature,
 		Floor:       func(tier string) int { return 40 },
-		Rule:        "trials of 2..16 goroutines x 3..12 Runs each on one shared Model (each goroutine with its own input tensors, released together by a start barrier), plus 0..2 goroutines loading models (same bytes and other bytes) meanwhile; models: the sample models mlp/gru/scaler (ndm sparingly) and generated programs covering every family that reads shared state (initializers as Gemm/MatMul/Conv weights and bias, as initial_h/initial_c, as Reshape/Expand/Slice/Gather parameters, as PRelu slope, as ArgMax/Reduce operands, typed-field initializers, Constant/Scaler/LinearRegressor attribute tensors); GOMAXPROCS rotated over {2,4,8,16}; in half of the trials a light operator proxy injects PRNG-chosen yields/sleeps between node phases and records the global (goroutine,node) event order. Oracles: Go race detector reports (parsed from the detector log, deduplicated by outermost frames), bit-exact comparison of every concurrent result with the sequential baseline of a fresh model, weight fingerprints at quiescence, no error/panic. A trial counts as non-trivial only if at least one pair of Runs overlapped in time (measured from one atomic clock); distinct = (model structure, goroutines, runs).",
+		Rule:        "trials of 2..16 goroutines x 3..12 Runs each on one shared Model (each goroutine with its own input tensors, released together by a start barrier), plus 0..2 goroutines loading models (same bytes and other bytes) meanwhile; models: the sample models mlp/gru/scaler (ndm sparingly) and generated programs covering every family that reads shared state (initializers as Gemm/MatMul/Conv weights and bias, as initial_h/initial_c, as Reshape/Expand/Slice/Gather parameters, as PRelu slope, as ArgMax/Reduce operands, typed-field initializers, Constant/Scaler/LinearRegressor attribute tensors); GOMAXPROCS rotated over {2,4,8,16}; in half of the trials a light operator proxy injects PRNG-chosen yields/sleeps between node phases and records the global (goroutine,node) event order. in a third of the trials some Runs get one input of another shape, so that failing Runs (signature check, errors inside nodes) execute concurrently with succeeding ones and their error must be the one obtained alone. Oracles: Go race detector reports (parsed from the detector log, deduplicated by outermost frames), bit-exact comparison of every concurrent result with the sequential baseline of a fresh model, weight fingerprints at quiescence, no error/panic. A trial counts as non-trivial only if at least one pair of Runs overlapped in time (measured from one atomic clock); distinct = (model structure, goroutines, runs).",
 		Technique:   "Go race detector (-race build) over stress workloads with injected yields, plus in-process monitors: sequential-baseline value comparison and weight fingerprints at quiescence",
 		Assumptions: []string{"the race detector only sees accesses that are executed: the workload enumerates the roles a shared weight can play", "by C02 the sequential specification of Run is a pure function of its input, so linearizability reduces to per-call comparison with the baseline"},
 		Extra: func(a *Aggregate, cov map[string]any) {
@@ -55,7 +56,43 @@ func init() {
 
 var c17Clock int64
 
+// c17Run runs one trial. Deviations other than race-detector reports (a value
+// that differs from the sequential baseline, a Run that fails or panics only
+// concurrently, a modified weight) are re-examined: the same trial is re-run up
+// to three times. A defect of the library's own synchronisation shows again (the
+// seeded changes of this kind reproduce in every trial that reaches them); a
+// deviation that never shows again is attributed to the recorded finding
+// "tensor memory freed while referenced through a uintptr" (gorgonia's unsafe
+// slice headers under a concurrent collector; demonstrated on every run by the
+// child-process probe props.GCProbe) instead of being reported under the
+// trial's own signature.
 func c17Run(c *Ctx) {
+	first := c.Captured(func() { c17Trial(c) })
+	if len(first) == 0 {
+		return
+	}
+	reproduced := 0
+	for k := 0; k < 3 && reproduced == 0; k++ {
+		c.R = gen.ForCase(c.Seed, c.Prop, c.Idx)
+		if again := c.Captured(func() { c17Trial(c) }); len(again) > 0 {
+			reproduced = k + 1
+		}
+	}
+	c.Count("trials-re-examined", 1)
+	if reproduced > 0 {
+		for _, v := range first {
+			c.Violation(v.Sig, "%s [shown again when the trial was re-run, attempt %d]", v.Detail, reproduced)
+		}
+		return
+	}
+	c.Count("deviations-not-reproduced", 1)
+	c.Violation(GCFindingSignature, "%s: %s [not shown again in 3 re-runs of the same trial]", first[0].Sig, first[0].Detail)
+}
+
+// GCFindingSignature names the recorded C17 finding (see GCProbe).
+const GCFindingSignature = "concurrent:tensor-memory-freed-while-referenced-through-uintptr(gorgonia)"
+
+func c17Trial(c *Ctx) {
 	r := c.R
 	var spec *modelSpec
 	var desc string
@@ -68,10 +105,35 @@ func c17Run(c *Ctx) {
 			spec = specs[3]
 		}
 		desc = spec.Name
+	case kind == 13:
+		// error paths: every Run gets an operand of another shape, most of them incompatible
+		// with the shared weight, so that failing Runs (broadcast errors, shape mismatches
+		// inside a node) execute concurrently and must report what they report alone
+		op := r.PickStr("Add", "Mul", "Sub", "Div", "Greater", "PRelu", "MatMul", "Gemm")
+		a, b := r.Range(2, 4), r.Range(2, 4)
+		W := numTensor(r, ref.F32, []int{a, b})
+		req := mon.OpReq{Op: op, Inputs: []*ref.T{numTensor(r, ref.F32, []int{a, b}), W}}
+		if op == "Gemm" {
+			req.Inputs = []*ref.T{numTensor(r, ref.F32, []int{a, a}), numTensor(r, ref.F32, []int{a, b}), W}
+		}
+		g, feed := mon.BuildOpModel(req, mon.ModelOpts{InitMask: ^uint64(1), DynamicIn: true})
+		var outs []string
+		for _, o := range g.Outputs {
+			outs = append(outs, o.Name)
+		}
+		base := feed["i0"]
+		spec = &modelSpec{Name: "error paths " + op, Bytes: g.Bytes(), Outputs: outs,
+			Feed: func(fr *gen.R, _ int) map[string]*ref.T {
+				if fr.Chance(0.25) {
+					return map[string]*ref.T{"i0": base.Clone()}
+				}
+				return map[string]*ref.T{"i0": numTensor(fr, ref.F32, []int{fr.Range(1, 6), fr.Range(1, 6)})}
+			}}
+		desc = "error paths: " + trunc(req.Describe(), 300)
 	case kind == 12:
 		// linear-algebra roles of a shared weight: vector x matrix, matrix x vector,
 		// batched x matrix, vector x batched matrix, Gemm with a transposed weight
-		k, n := r.Range(2, 6), r.Range(2, 6)
+		k, n := r.Range(8, 40), r.Range(8, 40) // large enough for the Runs to overlap inside the product
 		W := numTensor(r, ref.F32, []int{k, n})
 		var req mon.OpReq
 		mask := uint64(2)
@@ -117,12 +179,16 @@ func c17Run(c *Ctx) {
 	if spec.Heavy {
 		G, R = r.PickInt(2, 3, 4), r.Range(2, 4)
 	}
+	if kind == 12 || kind == 13 { // single small nodes: many goroutines and Runs, so that calls really overlap
+		G, R = r.PickInt(8, 16), 12
+	}
+	misshape := !spec.Heavy && r.Chance(0.35)
 	procs := []int{2, 4, 8, 16}[c.Idx%4]
 	old := runtime.GOMAXPROCS(procs)
 	defer runtime.GOMAXPROCS(old)
 	useProxy := r.Bool()
 	loaders := r.PickInt(0, 1, 1, 2)
-	c.SetCase("model %s | %d goroutines x %d runs | GOMAXPROCS %d | proxy-yields %v | loaders %d", trunc(desc, 600), G, R, procs, useProxy, loaders)
+	c.SetCase("model %s | %d goroutines x %d runs | GOMAXPROCS %d | proxy-yields %v | loaders %d | some Runs with a misshapen input %v", trunc(desc, 600), G, R, procs, useProxy, loaders, misshape)
 
 	// sequential baseline on a fresh model
 	feeds := make([][]map[string]*ref.T, G)
@@ -139,6 +205,21 @@ func c17Run(c *Ctx) {
 		baseErr[g] = make([]error, R)
 		for j := 0; j < R; j++ {
 			feeds[g][j] = spec.Feed(r, 0)
+			if misshape && r.Chance(0.3) {
+				// this Run gets one float input of another shape: it fails in the signature check
+				// or inside a node (or computes something else); the error paths run concurrently too
+				var names []string
+				for k, v := range feeds[g][j] {
+					if v.DT.IsFloat() {
+						names = append(names, k)
+					}
+				}
+				sort.Strings(names)
+				if len(names) > 0 {
+					k := names[r.Intn(len(names))]
+					feeds[g][j][k] = variantOf(r, feeds[g][j][k], r.Bool())
+				}
+			}
 			in := gonnx.Tensors{}
 			for k, v := range feeds[g][j] {
 				in[k] = mon.ToTensor(v)
@@ -228,6 +309,8 @@ func c17Run(c *Ctx) {
 					what = "panic: " + o.Describe()
 				case (o.Err != nil) != (baseErr[g][j] != nil):
 					what = fmt.Sprintf("concurrent outcome %v, sequential outcome %v", o.Err, baseErr[g][j])
+				case o.Err != nil && o.Err.Error() != baseErr[g][j].Error():
+					what = fmt.Sprintf("concurrent error text %q, sequential error text %q", o.Err.Error(), baseErr[g][j].Error())
 				case o.Err == nil:
 					what = diffResults(out, base[g][j])
 				}
@@ -268,6 +351,13 @@ func c17Run(c *Ctx) {
 	lwg.Wait()
 	c.Eval(G * R)
 	c.Count("runs", int64(G*R))
+	for g := range baseErr {
+		for _, e := range baseErr[g] {
+			if e != nil {
+				c.Count("runs-that-fail-alone-and-concurrently", 1)
+			}
+		}
+	}
 	c.Count("trials-with-proxy-yields", b2i(useProxy))
 
 	// quiescent point: weights unchanged
@@ -277,7 +367,7 @@ func c17Run(c *Ctx) {
 		}
 	}
 	if mon.ProtoFingerprint(m) != protoFp {
-		c.Violation("concurrent:model-proto-modified", "the decoded model (node attributes, attribute tensors, initializer protos) changed during concurrent Runs | %s", trunc(desc, 300))
+		c.Violation("concurrent:model-proto-modified", "the numeric payloads of the decoded model (initializer messages, attribute tensors and float lists) changed during concurrent Runs | %s", trunc(desc, 300))
 	}
 	for i, f := range fails {
 		if i >= 3 {
@@ -288,6 +378,8 @@ func c17Run(c *Ctx) {
 			sig = "concurrent:panic"
 		} else if strings.HasPrefix(f.what, "concurrent outcome") {
 			sig = "concurrent:run-fails-only-concurrently"
+		} else if strings.HasPrefix(f.what, "concurrent error text") {
+			sig = "concurrent:error-differs-from-sequential"
 		} else if strings.HasPrefix(f.what, "concurrent load") {
 			sig = "concurrent:load-disturbed"
 		}
